@@ -82,9 +82,9 @@ pub fn suites(check: &str, thorough: bool) -> (Vec<SeqSuite>, String) {
                 name: "c18-core",
                 alphabet: vec![
                     Op::TrySend,
-                    Op::SendT(0),
+                    Op::SendT(1),
                     Op::TryRecv,
-                    Op::RecvT(0),
+                    Op::RecvT(1),
                     Op::Drain(VecState::Empty),
                     Op::FSend(0),
                     Op::FRecv(1),
